@@ -41,20 +41,9 @@ theorem wideText_empty (d : DaySelector) (h : wideEmpty d = true) : wideText d =
 theorem daySelector_eq (d : DaySelector) :
     Print.daySelector d
       = wideText d ++ ((if !wideEmpty d && !d.weekday.isEmpty then [' '] else []) ++ wdSel d.weekday) := by
-  by_cases h : wideEmpty d = true
-  · rw [wideText_empty d h]
-    simp only [wideEmpty] at h
-    simp [Print.daySelector, wideEmpty, h]
-  · have h' : wideEmpty d = false := by simpa using h
-    simp only [wideEmpty] at h'
-    have e : (match d.year, d.monthday with
-        | [y], first :: _ =>
-          if y.lo = y.hi ∧ y.step = 1 ∧ !Print.startsWithYear first then '-' :: Print.natStr y.hi else []
-        | _, _ => []) = yearDash d.year d.monthday := by
-      unfold yearDash
-      split <;> simp_all
-    simp only [Print.daySelector, wideEmpty, h', wideText, wdSel, e]
-    simp [List.append_assoc]
+  obtain ⟨ys, ms, w, wd⟩ := d
+  rcases ys with _ | ⟨y, _ | ⟨y2, ys⟩⟩ <;> rcases ms with _ | ⟨m, ms⟩ <;> cases w <;> cases wd <;>
+    simp [Print.daySelector, wideText, yearDash, wideEmpty, wdSel, Print.selector, List.append_assoc]
 
 /-- the selector part of a printed rule -/
 def selText (r : Rule) : List Char :=
@@ -181,7 +170,7 @@ theorem noWideStart_wdSel (ws : List WeekDayRange) (hok : okWeekdays ws = true) 
     refine ⟨?_, NoDateStart_wday lo _, ?_, ?_, ?_, ?_⟩
     · apply run_year_none
       rcases le6_cases hlo with h | h | h | h | h | h | h <;> subst h <;>
-        (intro c r e; simp only [Print.wdayStr, Print.str, String.toList, List.cons_append] at e
+        (intro c r e; simp only [Print.wdayStr, Print.str, String.toList] at e
          cases e; decide)
     all_goals
       rcases le6_cases hlo with h | h | h | h | h | h | h <;> subst h <;>
@@ -205,8 +194,13 @@ theorem digit_facts (c : Char) (h0 : '0' ≤ c) (h9 : c ≤ '9') :
 /-- a year has four digits: `HH:MM` is not one -/
 theorem run_year_none_time (x y : Char) (r : List Char) :
     run g_year false (x :: y :: ':' :: r) = none := by
-  by_cases h1 : '1' = x <;> by_cases h2 : '9' = y <;> by_cases h3 : ('2' ≤ x ∧ x ≤ '9') <;>
-    by_cases h4 : ('0' ≤ y ∧ y ≤ '9') <;> simp [g_year, PExpr.rep, peg, h1, h2, h3, h4]
+  by_cases h1 : '1' = x
+  · subst h1
+    by_cases h2 : '9' = y
+    · subst h2; simp [g_year, PExpr.rep, peg]
+    · simp [g_year, PExpr.rep, peg, h2]
+  · by_cases h3 : ('2' ≤ x ∧ x ≤ '9') <;> by_cases h4 : ('0' ≤ y ∧ y ≤ '9') <;>
+      simp [g_year, PExpr.rep, peg, h1, h3, h4]
 
 theorem noWideStart_timeSel (ts : List TimeSpan) (hts : okTimes ts = true) (rest : List Char) :
     NoWideStart (timeSel ts ++ rest) := by
